@@ -9,7 +9,7 @@ VERIF = os.path.dirname(os.path.dirname(os.path.abspath(__file__)))
 REPO = "/repo"
 # entries whose symptom needs a second repair reverted as well, and per-entry check arguments
 ALSO = {"H40": ["0181c74"], "H50": ["0f986f5"]}  # H50's path is shut by H51 (Close now closes the connections)
-ARGS = {"H51": ["--legs", "ssh", "--runs", "32"], "H21": ["--legs", "udp", "--runs", "48"], "H49": ["--legs", "quic/mem", "--runs", "48"], "H50": ["--legs", "ssh", "--runs", "96"], "H18": ["--legs", "ssh", "--runs", "96"], "H23": ["--legs", "race:kad", "--runs", "48"],
+ARGS = {"H51": ["--legs", "ssh", "--runs", "32"], "H54": ["--legs", "ssh", "--runs", "48"], "H21": ["--legs", "udp", "--runs", "48"], "H49": ["--legs", "quic/mem", "--runs", "48"], "H50": ["--legs", "ssh", "--runs", "96"], "H18": ["--legs", "ssh", "--runs", "96"], "H23": ["--legs", "race:kad", "--runs", "48"],
         "H46": ["--legs", "p2pke/mem,mbapp/mem,mem", "--runs", "1500"], "H47": ["--legs", "multi/mem+sim", "--runs", "1500"]}
 
 
